@@ -215,3 +215,12 @@ Definition pairZ_eqb (a b : Z * Z) : bool := Z.eqb (fst a) (fst b) && Z.eqb (snd
 
 (* int32(v) for an unsigned literal that may exceed the range *)
 Definition wrap32 (z : Z) : Z := ((z + 2147483648) mod 4294967296 - 2147483648)%Z.
+
+(* compact spelling of byte strings in generated case files: the bytes in base 256 below a
+   leading 1 (nm 0x1666f6f = [102;111;111], nm 1 = []); used only by the correspondence input *)
+Fixpoint unpack_bytes (fuel : nat) (n : N) (acc : list N) : list N :=
+  match fuel with
+  | O => acc
+  | S f => if (n <=? 1)%N then acc else unpack_bytes f (n / 256)%N ((n mod 256)%N :: acc)
+  end.
+Definition nm (n : N) : name := unpack_bytes (S (N.to_nat (N.log2 n))) n [].
